@@ -6,21 +6,11 @@ import random
 import threading
 import time
 
-from . import core
+from . import core, pipe
+from .pipe import S
 
 with open(os.path.join(core.SPEC, "dev_flags.json")) as _f:
     DEV = json.load(_f)
-
-
-def S(*xs):
-    """TLA+ set literal of strings/ints/tuples."""
-    def one(x):
-        if isinstance(x, str):
-            return '"%s"' % x
-        if isinstance(x, (tuple, list)):
-            return "<<" + ", ".join(one(y) for y in x) + ">>"
-        return str(x)
-    return "{" + ", ".join(one(x) for x in xs) + "}"
 
 
 BASE = dict(
@@ -125,22 +115,6 @@ def cfg(pid, tier):
     return c, n_beh, emit, extra
 
 
-def mc_module(consts):
-    """Wrapper module: set-valued constants are definitions substituted with `<-`."""
-    lines = ["---- MODULE MCrun ----", "EXTENDS ChfSeqMC"]
-    over, plain = {}, {}
-    for k, v in consts.items():
-        if isinstance(v, bool):
-            plain[k] = core.tla_bool(v)
-        elif isinstance(v, int):
-            plain[k] = str(v)
-        else:
-            lines.append("c_%s == %s" % (k, v))
-            over[k] = "c_" + k
-    lines.append("====")
-    return "\n".join(lines) + "\n", plain, over
-
-
 def to_behaviour(hist, bid, padmap):
     setup = hist[0]
     b = dict(id=bid, lrsn0=setup["lrsn0"], wb=setup["wb"], ues=sorted(setup["ues"]),
@@ -157,152 +131,18 @@ def to_behaviour(hist, bid, padmap):
     return b
 
 
-def select(behs, n, rnd):
-    """Keep the longest behaviours preferentially (they contain the shorter ones as prefixes)."""
-    if len(behs) <= n:
-        return behs
-    behs = sorted(behs, key=lambda h: -len(h))
-    head = behs[: max(n * 3, n)]
-    rnd.shuffle(head)
-    pick = head[: n * 3 // 4]
-    rest = behs[len(head):]
-    rnd.shuffle(rest)
-    pick += rest[: n - len(pick)]
-    if len(pick) < n:
-        pick += head[n * 3 // 4: n * 3 // 4 + (n - len(pick))]
-    return pick
-
-
-def run_behaviours(sc, vfh, behs, nworkers=None):
-    """Execute behaviours on the real code in parallel worker processes; return path of concatenated trace."""
-    nworkers = nworkers or min(12, core.NCPU, max(1, len(behs) // 4))
-    chunk = 40
-    jobs = []
-    wd = sc.path("run%d" % int(time.time() * 1000 % 1e9))
-    os.makedirs(wd)
-    for i in range(0, len(behs), chunk):
-        inp = os.path.join(wd, "b%d.json" % i)
-        with open(inp, "w") as f:
-            json.dump(behs[i:i + chunk], f)
-        jobs.append((inp, os.path.join(wd, "t%d.ndjson" % i)))
-    cmds = []
-    for j, (inp, outp) in enumerate(jobs):
-        cmds.append([vfh, "seq", "%d%03d" % (1 + os.getpid() % 9, j), inp, outp])
-    res = core.run_parallel(cmds, nworkers, timeout=3600, errdir=wd)
-    for (rc, err), c in zip(res, cmds):
-        if rc != 0:
-            raise core.MachineryError("harness worker failed rc=%s: %s\n%s" % (rc, " ".join(c), err))
-    allp = os.path.join(wd, "all.ndjson")
-    nlines = 0
-    with open(allp, "w") as out:
-        for _, outp in jobs:
-            with open(outp) as f:
-                for line in f:
-                    out.write(line)
-                    nlines += 1
-    return allp, nlines
-
-
-def judge(sc, trace_path, nlines):
-    consts = {k: core.tla_bool(v) for k, v in DEV.items()}
-    consts["TraceFile"] = '"trace.ndjson"'
-    r = core.tlc(sc, "ChfSeqTrace", core.cfg_text("TSpec", consts), workers=1, timeout=3600,
-                 files={"trace.ndjson": trace_path}, heap="12g")
-    out = list(core.tagged_lines(r["outfile"], "VF-RESULT"))
-    if len(out) != 1:
-        raise core.MachineryError("judge produced no result line:\n" + r["tail"][-3000:])
-    res = out[0]
-    if res["consumed"] != nlines:
-        raise core.MachineryError("judge consumed %d of %d trace lines" % (res["consumed"], nlines))
-    return res
-
-
-def trace_lines(trace_path, tid):
-    out = []
-    with open(trace_path) as f:
-        for line in f:
-            if '"trace":"%s"' % tid in line:
-                out.append(json.loads(line))
-    return out
-
-
 def check(pid, tier, replay=None):
-    v = core.Verdict(pid, tier)
-    sc = core.Scratch(pid)
-    rnd = random.Random(core.seed())
     consts, n_beh, emit, extra = cfg(pid, tier)
     limit = consts["Limit"]
-
-    def padmap(p):
-        return realpad(limit, p)
-
-    build = {}
-
-    def do_build():
-        try:
-            build["vfh"] = sc.build()
-        except Exception as e:  # noqa
-            build["err"] = e
-    th = threading.Thread(target=do_build)
-    th.start()
-
-    mc = dict(generated=0, distinct=0)
-    behs = []
-    if replay is None:
-        consts = dict(consts, EmitOneIn=emit)
-        consts.update(DEV)
-        mod, plain, over = mc_module(consts)
-        ct = core.cfg_text("Spec", plain, over, invariants=INV[pid], view="View", action_constraints=["EmitBehaviour"])
-        mc = core.tlc(sc, "MCrun", ct, extra_modules={"MCrun.tla": mod}, workers=min(8, core.NCPU), seed_=core.seed(),
-                      timeout=7200 if tier == "thorough" else 900)
-        cex = []
-        if mc["violated"]:
-            # A counterexample on the model alone is not a verdict (DESIGN 0.4): it is replayed into the
-            # real code together with the generated behaviours; only what the code does is judged.
-            cex = list(core.tagged_lines(mc["outfile"], "VF-CEX"))[:3]
-            v.notes.append("the specification (as-is model) admits a violation of %s; counterexample replayed "
-                           "into the implementation" % mc["violated"])
-            mc_inv = mc
-            ct = core.cfg_text("Spec", plain, over, invariants=[], view="View", action_constraints=["EmitBehaviour"])
-            mc = core.tlc(sc, "MCrun", ct, extra_modules={"MCrun.tla": mod}, workers=min(8, core.NCPU),
-                          seed_=core.seed(), timeout=7200 if tier == "thorough" else 900)
-            mc["violated"] = mc_inv["violated"]
-        hists = list(core.tagged_lines(mc["outfile"], "VF-BEH"))
-        hists = select(hists, n_beh, rnd)
-        behs = [to_behaviour(h, "%s-cex%d" % (pid, i), padmap) for i, h in enumerate(cex)]
-        behs += [to_behaviour(h, "%s-%d" % (pid, i), padmap) for i, h in enumerate(hists)]
-        behs += extra
-    else:
-        with open(replay) as f:
-            behs = [json.load(f)["behaviour"]]
-    th.join()
-    if "err" in build:
-        raise build["err"]
-    trace, nlines = run_behaviours(sc, build["vfh"], behs)
-    res = judge(sc, trace, nlines)
-    bymap = {b["id"]: b for b in behs}
-    mine = [x for x in res["viol"] if (x["prop"], x["clause"]) in CLAUSES[pid]]
-    for x in sorted(mine, key=lambda x: (x["trace"], x["step"])):
-        v.add(x, dict(family="seq", property=pid, behaviour=bymap.get(x["trace"]), violation=x,
-                      trace=trace_lines(trace, x["trace"])))
-    ndiv = len(res["div"])
-    if ndiv:
-        v.notes.append("divergences from the as-is model (no verdict): %d; e.g. %s" % (
-            ndiv, json.dumps(sorted(res["div"], key=lambda d: (d["trace"], d["step"]))[:3])))
-    steps = sum(len(b["steps"]) for b in behs)
-    cov = dict(
-        states=max(mc["distinct"], 1), transitions=max(mc["generated"], 1),
-        traces_validated_against_impl=len(behs), impl_steps_judged=steps,
-        divergences=ndiv, model_invariants=INV[pid], model_invariant_violated=mc.get("violated"), clauses=sorted("%s.%s" % c for c in CLAUSES[pid]),
-        exhaustive=False,
-        explanation="TLC explored the bounded ChfSeqMC model exhaustively (constants in 'constants'); a seeded sample of "
-                    "the explored transitions (behaviour = shortest path to the source state + the transition) was "
-                    "executed on the real code and every recorded step judged by ChfSeqTrace",
-        constants={k: str(x) for k, x in consts.items()},
-        samples=[behs[i] for i in range(min(2, len(behs)))],
-    )
-    return v.finish("model_checking", cov, [
-        "fake in-memory MongoDB stands in for mongod (find/update semantics trusted)",
-        "harness projection code and TLV walker trusted; TLC and CommunityModules trusted",
-        "rating and account servers reachable, tariff constant within a behaviour",
-    ])
+    consts = dict(consts, EmitOneIn=emit)
+    consts.update(DEV)
+    return pipe.standard_check(
+        pid, tier, family="seq", base_module="ChfSeqMC", consts=consts, invariants=INV[pid], n_beh=n_beh,
+        to_behaviour=lambda h, bid: to_behaviour(h, bid, lambda p: realpad(limit, p)),
+        harness_mode="seq", trace_module="ChfSeqTrace", trace_consts={k: core.tla_bool(v) for k, v in DEV.items()},
+        clauses=CLAUSES[pid], extra=extra, replay=replay,
+        assumptions=[
+            "fake in-memory MongoDB stands in for mongod (find/update semantics trusted)",
+            "harness projection code and TLV walker trusted; TLC and CommunityModules trusted",
+            "rating and account servers reachable, tariff constant within a behaviour",
+        ])
